@@ -114,7 +114,7 @@ def run_case(ctx, case):
         presig = (w0, tuple(k for k in kinds if k in CULPRITS)[:3])
         seen = ctx.__dict__.setdefault("presig_seen", {})
         seen[presig] = seen.get(presig, 0) + 1
-        if seen[presig] > 2:
+        if seen[presig] > 2 and ctx.corpus_idx is None:     # corpus inputs are always classified (exact-input findings)
             ctx.count("violations_not_shrunk(repeat of an already classified pre-signature)")
             ctx.evaluations += 1
             continue
@@ -124,7 +124,7 @@ def run_case(ctx, case):
             if not r2.get("compiled") or "panic" in r2:
                 return False
             return any(w.split(":")[0] == w0 for w, _ in check_run(r2, r2["runs"][0]))
-        small = cc.shrink_full(stmts, still, budget=240)
+        small = cc.shrink_full(stmts, still, budget=240 if ctx.corpus_idx is None else 16)
         _, r2 = fc.run_full(ctx, small, [event])
         b2 = [b for b in (check_run(r2, r2["runs"][0]) if r2.get("compiled") else bad) if b[0].split(":")[0] == w0] or bad
         ctx.violation(classify(small, w0), {"src": A.program_src(small), "event": repr(event)[:400],
